@@ -960,7 +960,19 @@ PROPS["C18"] = {"generate": c18_generate, "judge": c18_judge, "group_judge": c18
 def c15_generate(rng, tier):
     a = genhist.gen_rt(rng, count(tier, 250, 2500), nmax=count(tier, 5, 6), faults=("all" if tier == "thorough" else None))
     b = tag_cmp(genhist.gen_txt_fields(rng, count(tier, 300, 3000)), ["line", "parsed_line", "parsed_text", "stripped"])
-    return tag_cmp(a, None) + b
+    # the file layer of the TXT format: writer text and reader loops against Model/TxtFile.lean; a
+    # difference there is a broken tie, not by itself a violation (_rel = [])
+    c = tag_cmp(genhist.gen_txt_write(rng, count(tier, 150, 1500)), ["text"])
+    d = tag_cmp(genhist.gen_txt_read(rng, count(tier, 400, 4000)), ["parsed"])
+    for s in c + d:
+        s["_rel"] = []
+    return tag_cmp(a, None) + b + c + d
+
+
+def c15_search(rng, tier):
+    """failing-input search after a broken tie: plain round trips of every kind (sampled faults
+    only, so that the search stays within minutes)"""
+    return tag_cmp(genhist.gen_rt(rng, 1500 if tier == "quick" else 8000, nmax=5), None)
 
 
 def c15_judge(rec):
@@ -984,13 +996,14 @@ def c15_judge(rec):
 
 
 NONTRIVIAL_RULE["C15"] = "non-trivial: n>=2 vertices; distinct by canonical scenario"
-PROPS["C15"] = {"generate": c15_generate,
+PROPS["C15"] = {"generate": c15_generate, "search": c15_search,
                 "strata": lambda rec: [f"op={rec['scn'].get('op')}", f"kind={rec['scn'].get('kind', rec['scn'].get('_kind'))}", f"names={rec['scn'].get('_style')}", f"txt={rec['scn'].get('txt')}", f"n={rec['scn'].get('n')}"],
                 "nontrivial": lambda rec: rec["scn"].get("n", len(rec["scn"].get("names", []))) >= 2,
                 "judge": c15_judge,
                 "level": "proof",
                 "rule": "graphs, divisors (magnitudes up to 10^30, also results of CFLaplacian.apply), partial/full orientations, sparse/dense scripts with plain, Unicode, long, blank-containing, digit-like and hostile names; dict (through json text), JSON file and TXT file round trips compared observationally with the original; fault enumeration per written file: byte-prefix truncations (quick: 64 evenly spaced + last 16; thorough: all) and single-byte corruptions (quick 48 random; thorough every position x 3 values): must not raise, JSON proper prefixes must read None, anything returned must be a well-formed object; missing files read None",
-                "theorems": ["graph_dict_roundtrip", "edge_list_canonical", "divisor_dict_roundtrip", "script_dict_roundtrip", "decimal_roundtrip", "orientation_dict_roundtrip", "txt_fields_roundtrip", "txt_line_roundtrip", "txt_int_field_clean", "txt_record_roundtrip"]}
+                "theorems": ["graph_dict_roundtrip", "edge_list_canonical", "divisor_dict_roundtrip", "script_dict_roundtrip", "decimal_roundtrip", "orientation_dict_roundtrip", "txt_fields_roundtrip", "txt_line_roundtrip", "txt_int_field_clean", "txt_record_roundtrip",
+                             "txt_graph_file_roundtrip", "txt_divisor_file_roundtrip", "txt_orientation_file_roundtrip", "txt_script_file_roundtrip", "txt_int_roundtrip"]}
 
 
 # ---- C19
